@@ -317,6 +317,26 @@ def schedule(rep, prog):
         rep.ok("C19.stats-schedule", prog, it, incs[0], "iteration_++ once, unconditionally")
     else:
         rep.violation("C19.stats-schedule", prog, it, incs[0] if incs else None, "iteration_ is not incremented exactly once per iteration", "run_iteration must contain exactly one unconditional 'iteration_++' (found %d modification(s))" % len(incs))
+    # the counter labels the records and drives the schedule for an unbounded number of iterations (T / dt is any positive ratio):
+    # it must not be narrower than the parameter the writers receive it in (an implicit widening at the call is the sign that the
+    # counter wraps first)
+    WIDTH = {"bool": 1, "char": 8, "signed char": 8, "unsigned char": 8, "short": 16, "unsigned short": 16, "int": 32, "unsigned int": 32, "unsigned": 32, "long": 64, "unsigned long": 64, "long long": 64, "unsigned long long": 64, "size_t": 64, "std::size_t": 64}
+    fld = [f for f in prog.records.get("solver", {}).get("fields", []) if f.get("name") == "iteration_"]
+    if fld and wd:
+        ft = (fld[0].get("tw") or fld[0].get("t") or "").replace("const ", "").replace(" int", "").strip() or "int"
+        ft = {"unsigned": "unsigned int"}.get(ft, ft)
+        ft_full = (fld[0].get("tw") or fld[0].get("t") or "").replace("const ", "").strip()
+        tg = [prog.functions[tk] for tk in prog.call_targets(wd[0])]
+        pts = {(g["params"][0].get("t") or "").replace("const ", "").strip() for g in tg if g.get("params")}
+        wf = WIDTH.get(ft_full, WIDTH.get(ft))
+        wp = min([WIDTH.get(t_, 0) for t_ in pts] or [0])
+        if wf is None or not wp:
+            raise AnalysisBroken("solver::iteration_: the width of '%s' / of the iteration parameter of write_data (%s) is not known to this checker" % (ft_full, sorted(pts)))
+        if wf >= wp and wf >= 32:
+            rep.ok("C19.stats-schedule", prog, it, wd[0], "iteration_ (%s) is as wide as the iteration parameter of write_data (%s)" % (ft_full, ", ".join(sorted(pts))))
+        else:
+            rep.violation("C19.stats-schedule", prog, it, wd[0], "iteration counter narrower than the iteration number it is recorded as",
+                          "solver::iteration_ is a %s (%d bits) but is recorded through a parameter of type %s: after 2^%d iterations (a run with T/dt above that, which the parameter file allows) the counter wraps, so records get duplicate and out-of-order iteration numbers and the 'every 50th iteration' schedule restarts - the table no longer has one row per cell for every 50th iteration" % (ft_full, wf, ", ".join(sorted(pts)), wf))
     rn = prog.fn("solver::run")
     ri = prog.index(rn)
     loops = [n for n in walk(rn["body"]) if n.get("k") in ("WhileStmt", "ForStmt", "DoStmt") and any(is_call(x) and x.get("callee") == "solver::run_iteration" for x in walk(n["body"]))]
